@@ -137,6 +137,134 @@ theorem C33_inconsistent_type_counted_once (w : World) (local_ remoteTy : String
   have h' : remoteTy ∈ t.badTypes := by simpa using h
   simp [hf, h']
 
+/-! ### histories with set_listener steps, passes with several changes -/
+
+/-- the DDS rule applied along a history: each change judged by the configuration in force at that moment -/
+def specHist (c : Chain) : List Step → List (List Mail)
+  | [] => []
+  | .setListener l i m :: r => specHist (c.set l { installed := i, mask := m }) r
+  | .change e :: r => specCallbacks e c :: specHist c r
+
+/-- C33 (exactly the named receiver, over histories): for ALL initial configurations and ALL interleavings of set_listener
+    steps (any level, listener installed or removed, any mask) and status changes, every change is delivered to exactly
+    the receiver the rule names for the configuration in force at THAT moment -/
+theorem C33_exactly_one_over_histories (c : Chain) (h : List Step) : runHist c h = specHist c h := by
+  induction h generalizing c with
+  | nil => rfl
+  | cons st r ih =>
+    cases st with
+    | setListener l i m => simp only [runHist, specHist]; exact ih _
+    | change e => simp only [runHist, specHist, C33_dispatch]; rw [ih]
+
+theorem C33_at_most_one_over_histories (c : Chain) (h : List Step) : ∀ ms ∈ runHist c h, ms.length ≤ 1 := by
+  induction h generalizing c with
+  | nil => simp [runHist]
+  | cons st r ih =>
+    cases st with
+    | setListener l i m => simp only [runHist]; exact ih _
+    | change e =>
+      simp only [runHist, List.mem_cons]
+      rintro ms (h | h)
+      · rw [h]; exact C33_at_most_one e c
+      · exact ih c ms h
+
+theorem firstEnabled_enabled (k : Status) (c : Chain) (ls : List Level) (l : Level)
+    (h : firstEnabled k c ls = some l) : (c.slot l).enabled k = true := by
+  induction ls with
+  | nil => simp [firstEnabled] at h
+  | cons x r ih =>
+    simp only [firstEnabled] at h
+    split at h
+    · cases h; assumption
+    · exact ih h
+
+theorem mem_deliverTo (c : Chain) (k : Status) (o : Option Level) (m : Mail) (h : m ∈ deliverTo c k o) :
+    o = some m.level ∧ m.cb = k := by
+  cases o with
+  | none => simp [deliverTo] at h
+  | some l =>
+    simp only [deliverTo] at h
+    split at h
+    · simp only [List.mem_singleton] at h; subst h; exact ⟨rfl, rfl⟩
+    · simp at h
+
+/-- whoever is called back has the status of the callback enabled in its own mask -/
+theorem callback_level_enables (e : Event) (c : Chain) (m : Mail) (hm : m ∈ callbacks e c) :
+    (c.slot m.level).enabled m.cb = true := by
+  rw [C33_dispatch] at hm
+  by_cases hd : e = .dataArrived
+  · subst hd
+    simp only [specCallbacks] at hm
+    split at hm
+    · have := mem_deliverTo c _ _ m hm
+      have hl : m.level = .group := by have := this.1; simp at this; exact this.symm
+      rw [hl, this.2]; simpa [Chain.slot]
+    · have := mem_deliverTo c _ _ m hm
+      rw [this.2]; exact firstEnabled_enabled _ c _ _ this.1
+  · have hs : specCallbacks e c = deliverTo c e.status (firstEnabled e.status c (levels e)) := by
+      cases e <;> first | rfl | exact absurd rfl hd
+    rw [hs] at hm
+    have := mem_deliverTo c _ _ m hm
+    rw [this.2]; exact firstEnabled_enabled _ c _ _ this.1
+
+/-- C33 (set_listener(None, NO_STATUS) clears the mask): after the step the level enables nothing, so it can neither
+    receive nor swallow a status — no callback is made at that level, and (C33_exactly_one_over_histories) every change
+    goes on to the first outer level that enables it -/
+theorem C33_set_listener_none_clears_mask (c : Chain) (l : Level) (k : Status) :
+    ((c.set l { installed := false, mask := [] }).slot l).enabled k = false ∧
+    (∀ e : Event, ∀ m ∈ callbacks e (c.set l { installed := false, mask := [] }), m.level ≠ l) := by
+  have h1 : ∀ k, ((c.set l { installed := false, mask := [] }).slot l).enabled k = false := by
+    intro k; cases l <;> simp [Chain.set, Chain.slot, Slot.enabled]
+  refine ⟨h1 k, ?_⟩
+  intro e m hm hl
+  have := callback_level_enables e _ m hm
+  rw [hl, h1] at this
+  exact Bool.false_ne_true this
+
+/-- the same at world level: the step of the scenario language stores presence and mask together -/
+theorem C33_set_listener_stores_both (c : Chain) (l : Level) (i : Bool) (m : List Status) :
+    (c.set l { installed := i, mask := m }).slot l = { installed := i, mask := m } := by
+  cases l <;> rfl
+
+/-- seed C33_d (stale mask after removing the listener): writer listener with PUBLICATION_MATCHED removed by
+    set_listener(None, NO_STATUS); publisher listener enables the status: the rule names the publisher, the seeded
+    step leaves the writer's mask in force and nobody is called; the coded step calls the publisher -/
+theorem C33_stale_mask_seeded_counterexample :
+    let c : Chain := { entity := { installed := true, mask := [.publicationMatched] },
+                       group := { installed := true, mask := [.publicationMatched] }, participant := Slot.none }
+    let h : List Step := [.setListener .entity false [], .change .publicationMatched]
+    runHistSeeded c h = [[]] ∧ runHist c h = [[{ level := .group, cb := .publicationMatched }]] ∧
+    specHist c h = [[{ level := .group, cb := .publicationMatched }]] := by
+  decide
+
+/-- C33 (several new-data changes in one pass): every change of the pass is signalled by the rule on its own — with
+    DATA_ON_READERS enabled on the subscriber ALL of them are data-on-readers -/
+theorem C33_pass_every_change (n : Nat) (c : Chain) :
+    passData n c = (List.replicate n (specCallbacks .dataArrived c)).flatten := by
+  induction n with
+  | zero => rfl
+  | succ k ih => simp only [passData, C33_dispatch, ih, List.replicate_succ, List.flatten_cons]
+
+/-- seed C33_c (data-on-readers coalesced by a flag that replaces the mask test): two changes in one pass, subscriber
+    enables DATA_ON_READERS, reader DATA_AVAILABLE: the second change is signalled as data-available on the reader -/
+theorem C33_pass_coalesced_seeded_counterexample :
+    let c : Chain := { entity := { installed := true, mask := [.dataAvailable] },
+                       group := { installed := true, mask := [.dataOnReaders] }, participant := Slot.none }
+    passDataSeeded (c.group.enabled .dataOnReaders) 2 c =
+      [{ level := .group, cb := .dataOnReaders }, { level := .entity, cb := .dataAvailable }] ∧
+    passData 2 c = [{ level := .group, cb := .dataOnReaders }, { level := .group, cb := .dataOnReaders }] := by
+  decide
+
+/-- non-vacuity: a history that installs, replaces and removes listeners at all three levels -/
+example :
+    let h : List Step := [.change .sampleRejected, .setListener .entity true [.sampleRejected], .change .sampleRejected,
+      .setListener .entity false [.sampleRejected], .change .sampleRejected, .setListener .entity false [],
+      .setListener .participant true [.sampleRejected], .change .sampleRejected,
+      .setListener .group true [.sampleRejected], .change .sampleRejected]
+    runHist { entity := Slot.none, group := Slot.none, participant := Slot.none } h =
+      [[], [⟨.entity, .sampleRejected⟩], [], [⟨.participant, .sampleRejected⟩], [⟨.group, .sampleRejected⟩]] := by
+  decide
+
 /-! ### the code before the patches (regression witnesses; each was replayed on the real code, see notes/w2a.md) -/
 
 /-- the old code reached the named receiver outside the two findings -/
